@@ -580,6 +580,21 @@ func runCase(run *lib.Run, c int64, base string) {
 		powers, real, byz = []int64{pw, pw, pw, pw}, []bool{true, true, true, true}, []int{rng.Intn(4)}
 		real[byz[0]] = false
 	}
+	if c%10 == 2 {
+		// scripted: a malformed relative of a well-formed block the honest validators validated
+		// earlier in the same height (seven equal validators, two of them Byzantine)
+		kind = "aftervalid"
+		n = 7
+		pw := []int64{1, 10, 7}[(c/10)%3]
+		powers, real, byz = make([]int64, 7), make([]bool, 7), nil
+		for i := range powers {
+			powers[i], real[i] = pw, true
+		}
+		for _, i := range rng.Perm(7)[:2] {
+			byz = append(byz, i)
+			real[i] = false
+		}
+	}
 	spare := -1
 	if kind == "valchange" {
 		powers = append(powers, 0) // a full node that may be added as validator
@@ -664,6 +679,72 @@ func runCase(run *lib.Run, c int64, base string) {
 				break
 			}
 		}
+	} else if kind == "aftervalid" {
+		// mutations that leave the header alone give B the hash of A; the others are ordinary
+		// malformed blocks offered late in a height
+		names := []string{"body-changed-header-kept", "data-changed-hash-stale", "lastcommit-changed-hash-stale", "body-changed-header-kept", "none"}
+		want := names[int(c/10)%len(names)]
+		mu := muts[0]
+		for _, x := range muts {
+			if x.name == want {
+				mu = x
+			}
+		}
+		if want == "body-changed-header-kept" {
+			mu = mutation{want, 1, func(b *types.Block, _ *sim.Node, _ *sim.Net, _ []int) bool {
+				// the header, hence the block hash, is that of the well-formed block, byte for byte
+				b.Data = &types.Data{Txs: append(append(types.Txs{}, b.Data.Txs...), types.Tx("smuggled")), ExTxs: b.Data.ExTxs}
+				return true
+			}}
+		}
+		if want == "lastcommit-changed-hash-stale" {
+			mu = mutation{want, 2, func(b *types.Block, _ *sim.Node, _ *sim.Net, _ []int) bool {
+				// the header keeps LastCommitHash; the embedded commit loses all but one precommit
+				if b.LastCommit == nil || len(b.LastCommit.Precommits) < 2 {
+					return false
+				}
+				pcs := cloneVotes(b.LastCommit)
+				kept := false
+				for i := range pcs {
+					if pcs[i] != nil && !kept {
+						kept = true
+						continue
+					}
+					pcs[i] = nil
+				}
+				b.LastCommit = &types.Commit{BlockID: b.LastCommit.BlockID, Precommits: pcs}
+				return true
+			}}
+		}
+		m.label = "aftervalid:" + mu.name
+		run.Count("after_valid_cases", 1)
+		if mu.minH > 1 {
+			adv.FairSuffix(mu.minH-1, 8000)
+		}
+		staged, h, id := adv.AttackBadBlockAfterValid(func(b *types.Block, ref *sim.Node) bool { return mu.apply(b, ref, net, byz) })
+		if staged {
+			run.Count("after_valid_staged", 1)
+			run.Count("after_valid_offered_"+mu.name, 1)
+			run.Count("after_valid_honest_validators_still_remembering_the_valid_block", int64(adv.AfterValidHolders))
+			committed := false
+			for _, nd := range net.Nodes {
+				if nd.Real && nd.Up && nd.Store.Height() >= h {
+					if b := nd.Store.LoadBlock(h); b != nil && bytes.Equal(b.Hash(), id.Hash) && nd.Store.LoadBlockMeta(h).PartsHeader.Equals(id.PartsHeader) {
+						committed = true
+					}
+				}
+			}
+			if mu.name != "none" && committed {
+				m.viol("malformed-block-committed-after-valid-relative:"+mu.name, fmt.Sprintf("a block with defect %q, offered at height %d after the honest validators had validated its well-formed relative, was committed by an honest node", mu.name, h))
+			} else if mu.name != "none" {
+				run.Count("malformed_rejected", 1)
+			}
+			run.Nontrivial(fmt.Sprintf("av/%s/%d/%d", mu.name, c, h))
+		} else {
+			run.Count("attack_not_staged", 1)
+		}
+		adv.RunUntil(target, 1500)
+		adv.FairSuffix(target, 8000)
 	} else if kind == "eqvcommit" {
 		m.label = "eqvcommit"
 		run.Count("equivocal_commit_cases", 1)
